@@ -121,17 +121,47 @@ def run_xlate():
         facts = json.load(open(facts_path))
     if rc != 0 and not facts:
         return False, {}, "translator failed:\n" + out
-    # sync: remove stale generated files, rewrite changed ones only
+    # sync: rewrite changed files only.  A module that was NOT regenerated this run (its extractor did not recognise the source)
+    # is kept as it was - every domain is linked into the one driver, so deleting it would break the build of all twenty checks -
+    # but it is recorded as stale: every check whose theorems or correspondence import it reports it (Ctx.stale_obligations)
     os.makedirs(GEN_DIR, exist_ok=True)
     new = set(os.listdir(tmp))
-    for f in os.listdir(GEN_DIR):
-        if f.endswith(".lean") and f not in new:
-            os.remove(os.path.join(GEN_DIR, f))
+    facts["stale_gen"] = sorted(f[:-5] for f in os.listdir(GEN_DIR) if f.endswith(".lean") and f not in new)
     for f in new:
         a, b = os.path.join(tmp, f), os.path.join(GEN_DIR, f)
         if not os.path.exists(b) or open(a, "rb").read() != open(b, "rb").read():
             shutil.copyfile(a, b)
     return True, facts, out
+
+
+def lean_import_closure(modules):
+    """Transitive imports (within this project) of the given Lean modules, by reading the `import` lines."""
+    seen, todo = set(), list(modules)
+    while todo:
+        m = todo.pop()
+        if m in seen:
+            continue
+        seen.add(m)
+        path = os.path.join(LEAN, *m.split(".")) + ".lean"
+        if not os.path.exists(path):
+            continue
+        for line in open(path, encoding="utf-8", errors="replace"):
+            line = line.strip()
+            if line.startswith("import "):
+                for dep in line[7:].split():
+                    if dep.startswith(("WtfModel.", "Driver")) and dep not in seen:
+                        todo.append(dep)
+    return seen
+
+
+def driver_module_of(domain):
+    """Driver module that implements a protocol domain (from the match arms of Driver/Dispatch.lean)."""
+    try:
+        src = open(os.path.join(LEAN, "Driver", "Dispatch.lean")).read()
+    except OSError:
+        return None
+    m = re.search(r'\|\s*"%s"\s*=>\s*(\w+)\.runCase' % re.escape(domain), src)
+    return "Driver." + m.group(1) if m else None
 
 
 # ---------------------------------------------------------------------------------------------
@@ -431,6 +461,11 @@ def shrink_ops(ctx, domain, ops_lines, still_fails, keep_prefix=0, max_rounds=20
 # Context, verdict, evidence
 # ---------------------------------------------------------------------------------------------
 
+SEARCH_FAMILY = {"C01", "C02", "C03", "C04", "C06", "C07", "C10", "C13", "C20"}
+SEARCH_MODEL_SITES = ["platform:crossPlatformTools", "platform:checkPlatformVariant-shape", "stopwords:func", "stopwords:literal",
+                      "stopwords:tokenizer-uses-nlp.StopWords", "bm25:defaultParams", "bm25:params-literal"]
+
+
 class Ctx:
     def __init__(self, pid, tier, seed, prop):
         self.pid, self.tier, self.seed, self.prop = pid, tier, seed, prop
@@ -472,8 +507,13 @@ class Ctx:
         with BuildLock():
             ok, facts, out = run_xlate()
         self.facts = facts.get("facts", {})
+        self.stale_gen = set(facts.get("stale_gen", []))
         self.oblige("translator:run", "translator", ok, out)
         asserts = {a["site"]: a for a in facts.get("assertions", [])}
+        # the regenerated tables every run of the SearchUniversal model reads: when one of them is not recognised the model is
+        # stale, and the checks of the whole search family must name that site rather than a diffuse correspondence failure
+        if self.pid in SEARCH_FAMILY:
+            required_assertions = list(required_assertions) + [a for a in SEARCH_MODEL_SITES if a not in required_assertions]
         for site in required_assertions:
             a = asserts.get(site)
             if a is None:
@@ -482,9 +522,23 @@ class Ctx:
                 self.oblige("translator:" + site, "translator", a.get("ok", False), a.get("msg", ""))
         return ok
 
+    def stale_obligations(self, modules, what):
+        """A regenerated module that this run could not regenerate and that `modules` import: the tie is broken there."""
+        stale = getattr(self, "stale_gen", set())
+        if not stale:
+            return
+        done = getattr(self, "_stale_reported", set())
+        for m in sorted(lean_import_closure(modules)):
+            if m.startswith("WtfModel.Gen.") and m[len("WtfModel.Gen."):] in stale and (m, what) not in done:
+                done.add((m, what))
+                self.oblige("translator:regenerated-module-stale:%s(%s)" % (m, what), "translator", False,
+                            "%s was not regenerated from the current source (its extractor did not recognise the code); %s import it" % (m, what))
+        self._stale_reported = done
+
     def stage_prove(self, theorems, extra_targets=()):
         pid = self.pid
         targets = ["WtfModel.Props." + pid, "WtfModel.Audit." + pid] + list(extra_targets)
+        self.stale_obligations(targets, "the property theorems")
         with BuildLock():
             ok, out = lake_build(targets)
             self.build_log = out
@@ -517,7 +571,10 @@ class Ctx:
             if need_driver:
                 ok2, out2 = build_driver()
                 self.oblige("build:driver", "build", ok2, out2)
-        return ok and ok2
+        # a model that no longer builds (a regenerated table was not produced, a proof module broke) must not stop the
+        # search for a failing input: the implementation side and its property monitors still run (see correspond)
+        self.driver_ok = ok2
+        return ok
 
     def correspond(self, domain, n, name=None, args=None, comparator=None, nontrivial=None, seed_offset=0,
                    sample_n=3, on_mismatch=None, model=True, shrink=True, hit_props=None):
@@ -527,6 +584,12 @@ class Ctx:
         seed = self.seed + seed_offset
         r.gen(domain, n, seed, self.tier, args)
         r.exec_impl()
+        if model and driver_module_of(domain):
+            self.stale_obligations([driver_module_of(domain)], "the model of domain " + domain)
+        if model and not getattr(self, "driver_ok", True):
+            model = False
+            self.oblige("correspondence:%s" % name, "correspondence", False,
+                        "the model driver did not build: the implementation was run alone, judged by the property monitors only")
         if model:
             r.exec_model()
         r.load()
@@ -572,8 +635,8 @@ class Ctx:
             self.oblige("correspondence:%s" % name, "correspondence", False, detail)
             if on_mismatch:
                 on_mismatch(r, bad, detail)
-        else:
-            self.oblige("correspondence:%s" % name, "correspondence", True, "%d cases agree" % ncases)
+        elif model or getattr(self, "driver_ok", True):
+            self.oblige("correspondence:%s" % name, "correspondence", True, "%d cases agree" % ncases if model else "%d cases run on the implementation under its monitors (no model in this stage)" % ncases)
         props_ok = set(hit_props or [self.pid])
         for h in r.hits:
             if h.get("prop") not in props_ok:
